@@ -62,7 +62,7 @@ def variant(ident, kind="unit", fields=None, ser=(), ts=None, dis=False, default
 
 
 def field(ty, name="", dw=""):
-    return dict(name=name, ty=ty, dw=dw)
+    return dict(name=name, ncp=cp(name), ty=ty, dw=dw)
 
 
 def enum(did, variants, style="none", prefix=None, aci=False, phf=False, perr=False, cis=False, generics="none",
